@@ -130,6 +130,12 @@ func runFaulty(sc *Scenario, dbPath string, sites []faultSite, record *[]faultSi
 // activations (both zeroing calls), a snapshot + developer payout height, the
 // mint and mint-burn heights, with SPR sets, transfers and conversions.
 func genFaultChain(t *rapid.T) *Scenario {
+	if rapid.IntRange(0, 2).Draw(t, "plainFamily") == 0 {
+		// a plain 2.0.2+ chain: every block starts with grading, no activation-height preamble
+		cfg := DefaultCfg()
+		cfg.MinBlocks, cfg.MaxBlocks, cfg.PGarbage, cfg.PGraded = 6, 10, 0, 90
+		return GenModernScenario(t, cfg)
+	}
 	k := rapid.IntRange(5, 8).Draw(t, "k")
 	lead := rapid.IntRange(7, 10).Draw(t, "lead")
 	start := uint32(144*k - lead)
